@@ -2113,8 +2113,26 @@ def install_intrinsics(E):
     I['exit'] = i_exit
 
     # ---- printf family (concrete formatting)
+    def sym_cstring(E, st, addr, limit=1 << 16):
+        """bytes of a NUL-terminated string; symbolic bytes are kept if the path condition excludes NUL"""
+        c = E.conc_cstr(E, st, addr)
+        if c is not None:
+            return list(c)
+        out = []
+        while len(out) < limit:
+            b = E.load(st, addr + len(out), 1)
+            if b is UNDEF:
+                raise Violation('uninit', 'uninitialised byte in a string being printed')
+            if type(b) is int:
+                if b == 0:
+                    break
+            elif E.check(b == 0):
+                raise SymxError('printf %s: symbolic byte that may be NUL')
+            out.append(b)
+        return out
+
     def fmt(E, st, f, va, argbase=None):
-        out = bytearray()
+        out = []
         i = 0
         ai = 0
         while i < len(f):
@@ -2134,7 +2152,7 @@ def install_intrinsics(E):
             if conv == 's':
                 if a is UNDEF:
                     raise Violation('uninit', 'printf %s of uninitialised pointer')
-                s = E.cstring(st, need_int(a, '%s arg'))
+                s = sym_cstring(E, st, need_int(a, '%s arg'))
                 txt = s
                 if '.' in flags:
                     txt = s[:int(flags.split('.')[1] or 0)]
@@ -2149,7 +2167,7 @@ def install_intrinsics(E):
                 bits = 64 if 'l' in spec else 32
                 a &= mask(bits)
                 if a >> (bits - 1): a -= 1 << bits
-                out += (('%' + flags + 'd') % a).encode()
+                out += list((('%' + flags + 'd') % a).encode())
             elif conv in 'ux':
                 if type(a) is not int:
                     if a is UNDEF:
@@ -2158,7 +2176,7 @@ def install_intrinsics(E):
                         raise SymxError('symbolic %x argument')
                     raise NeedConc(argbase + ai - 1, 4096)
                 bits = 64 if 'l' in spec else 32
-                out += (('%' + flags + conv) % (a & mask(bits))).encode()
+                out += list((('%' + flags + conv) % (a & mask(bits))).encode())
             elif conv == 'c':
                 if type(a) is not int:
                     if a is UNDEF:
@@ -2169,7 +2187,7 @@ def install_intrinsics(E):
                 out.append(a & 255)
             else:
                 raise SymxError('printf conversion %' + conv)
-        return bytes(out)
+        return out
 
     def put_str(E, st, dst, data):
         for k, b in enumerate(data):
@@ -2179,12 +2197,12 @@ def install_intrinsics(E):
         dst, n, f = args[0], need_int(args[1], 'snprintf n'), args[2]
         s = fmt(E, st, E.cstring(st, need_int(f, 'fmt')), args[3:], 3)
         if n > 0:
-            put_str(E, st, need_int(dst, 'snprintf dst'), s[:n - 1] + b'\0')
+            put_str(E, st, need_int(dst, 'snprintf dst'), s[:n - 1] + [0])
         return len(s)
     I['snprintf'] = i_snprintf
     def i_sprintf(E, st, fr, ins, args):
         s = fmt(E, st, E.cstring(st, need_int(args[1], 'fmt')), args[2:], 2)
-        put_str(E, st, need_int(args[0], 'sprintf dst'), s + b'\0')
+        put_str(E, st, need_int(args[0], 'sprintf dst'), s + [0])
         return len(s)
     I['sprintf'] = i_sprintf
     def i_printf(E, st, fr, ins, args):
@@ -2214,7 +2232,7 @@ def install_intrinsics(E):
         s = fmt(E, st, E.cstring(st, need_int(f, 'fmt')), va)
         n = need_int(n, 'n')
         if n > 0:
-            put_str(E, st, need_int(dst, 'dst'), s[:n - 1] + b'\0')
+            put_str(E, st, need_int(dst, 'dst'), s[:n - 1] + [0])
         return len(s)
     I['vsnprintf'] = i_vsnprintf
 
